@@ -298,6 +298,85 @@ func ruleDial(c *Ctx) {
 		}
 		c.Check("DIAL", "default-dialer:"+g.Name()+":has-control-hook", "-", len(hooks) >= 1, "the default dialer has no net.Dialer.Control hook: resolved addresses are not validated right before connecting")
 		for _, ctl := range hooks {
+			// a bound method value (hook.control): judge the method, whose receiver is the bound value
+			var recvBinding ssa.Value
+			if strings.Contains(ctl.Synthetic, "bound") && len(ctl.Blocks) == 1 {
+				for _, cl := range eng.Calls(ctl) {
+					if m := cl.Common().StaticCallee(); m != nil && p.InRepo(m) && len(m.Blocks) > 0 {
+						if len(ctl.FreeVars) == 1 {
+							recvBinding = eng.FreeVarBinding(ctl.FreeVars[0])
+						}
+						ctl = m
+					}
+				}
+			}
+			// the address parameter: the second string parameter (network, address string, c syscall.RawConn)
+			var addrP *ssa.Parameter
+			ns := 0
+			for _, pa := range ctl.Params {
+				if bt, ok := pa.Type().Underlying().(*types.Basic); ok && bt.Kind() == types.String {
+					ns++
+					if ns == 2 {
+						addrP = pa
+					}
+				}
+			}
+			// isRP: the validator value is RequirePublicIP — also when it is kept in a field of the hook's receiver
+			isRP := func(v ssa.Value) bool {
+				if g, _ := p.AllFrom(v, deepF, isRequirePublic); g {
+					return true
+				}
+				g, _ := p.AllFrom(v, eng.OriginOpts{ThroughConvert: true, Interproc: true, ThroughFieldLoad: true}, func(x ssa.Value) bool {
+					if isRequirePublic(x) {
+						return true
+					}
+					// the receiver parameter of the method stands for the bound value
+					if pa, isP := x.(*ssa.Parameter); isP && recvBinding != nil && len(ctl.Params) > 0 && pa == ctl.Params[0] {
+						g2, _ := p.AllFrom(recvBinding, eng.OriginOpts{ThroughConvert: true, Interproc: true, ThroughFieldLoad: true}, isRequirePublic)
+						return g2
+					}
+					return false
+				})
+				return g
+			}
+			// isDialedIP: v is ParseIP(host of SplitHostPort(the address parameter)), possibly computed by a helper
+			var isDialedIP func(v ssa.Value, addr ssa.Value, d int) bool
+			isDialedIP = func(v ssa.Value, addr ssa.Value, d int) bool {
+				if d > 4 {
+					return false
+				}
+				pi, ok := p.Resolve(v).(*ssa.Call)
+				if !ok {
+					return false
+				}
+				if eng.CalleeName(&pi.Call) == "net.ParseIP" {
+					hp, idx, ok := eng.AsResult(p.Resolve(pi.Call.Args[0]))
+					if !ok || idx != 0 || eng.CalleeName(&hp.Call) != "net.SplitHostPort" {
+						return false
+					}
+					return p.Resolve(hp.Call.Args[0]) == addr
+				}
+				if h := pi.Call.StaticCallee(); h != nil && p.InRepo(h) && len(h.Blocks) > 0 && h.Signature.Results().Len() == 1 {
+					// a helper: one of its parameters receives the address, and every return is the dialed IP of that parameter
+					for i, a := range pi.Call.Args {
+						if p.Resolve(a) != addr || i >= len(h.Params) {
+							continue
+						}
+						n := 0
+						okAll := true
+						for _, r := range eng.Returns(h) {
+							n++
+							if !isDialedIP(r.Results[0], h.Params[i], d+1) {
+								okAll = false
+							}
+						}
+						if okAll && n > 0 {
+							return true
+						}
+					}
+				}
+				return false
+			}
 			for i, r := range eng.Returns(ctl) {
 				good, bad := p.AllFrom(r.Results[0], eng.Plain, func(v ssa.Value) bool {
 					call, ok := v.(*ssa.Call)
@@ -305,19 +384,10 @@ func ruleDial(c *Ctx) {
 						return false
 					}
 					// the validator applied is RequirePublicIP
-					isRP, _ := p.AllFrom(call.Call.Value, deepF, isRequirePublic)
-					if !isRP {
+					if !isRP(call.Call.Value) {
 						return false
 					}
-					pi, ok := p.Resolve(call.Call.Args[0]).(*ssa.Call)
-					if !ok || eng.CalleeName(&pi.Call) != "net.ParseIP" {
-						return false
-					}
-					hp, idx, ok := eng.AsResult(p.Resolve(pi.Call.Args[0]))
-					if !ok || idx != 0 || eng.CalleeName(&hp.Call) != "net.SplitHostPort" {
-						return false
-					}
-					return eng.IsParam(p.Resolve(hp.Call.Args[0]), ctl, 1)
+					return addrP != nil && isDialedIP(call.Call.Args[0], addrP, 0)
 				})
 				c.CheckAt("DIAL", fmt.Sprintf("%s:return#%d-is-RequirePublicIP(ParseIP(host of address))", short(ctl), i), r, good, "the Control hook of the default dialer can return something other than RequirePublicIP's verdict on the IP of the address being connected (e.g. nil, another validator, or a verdict on a different string): "+valsStr(p, bad))
 			}
